@@ -30,6 +30,9 @@ func runC19(c *an.Ctx) {
 	// round 7
 	r19g(c)
 	r19h(c)
+	// round 8
+	r19i(c)
+	r19j(c)
 }
 
 const evPkg = "common/event"
